@@ -114,6 +114,69 @@ def run(prop, tier, seed, replay):
             return (("step", rng.choice([2, 2, 3])), rng.choice([None, None, 0, 1, -n]), rng.choice([None, None, n, -1]))
         return ("slice", rng.choice(cands), rng.choice(cands))
 
+    # ---- stratum: operators are pure — no operand is changed by +, *, +=, sum() or a running total, and accumulating
+    #      the same list twice gives the same total (adding containers adds their counts, nothing else) ------------------
+    def snapshot(x):
+        if hasattr(x, "counts") and hasattr(x, "sum_weights"):          # NormalisedCounts
+            return (x.counts.counts.copy(), x.sum_weights.sum_weights1.copy(), x.sum_weights.sum_weights2.copy())
+        if hasattr(x, "counts"):
+            return (x.counts.copy(),)
+        return tuple(snapshot(m) for m in (x.dd, x.dr, x.rd, x.rr) if m is not None)
+
+    def same(a, b):
+        return len(a) == len(b) and all(same(u, v) if isinstance(u, tuple) else np.array_equal(u, v) for u, v in zip(a, b))
+
+    for pi in range(6 if tier == "quick" else 40):
+        auto = pi % 2 == 0
+        N, B = rng.choice([2, 3]), rng.choice([1, 2])
+        base = G.rand_corrfunc_parts(rng, N=N, B=B, auto=auto, mask=5)
+        binning = base["binning"]
+        w1 = base["parts"]["dd"].sum_weights.sum_weights1
+        w2 = base["parts"]["dd"].sum_weights.sum_weights2
+        level = ["counts", "normalised", "corrfunc"][pi % 3]
+
+        def fresh_list():
+            out = []
+            for _ in range(3):
+                nc = G.make_nc(binning, G.rand_counts(rng, B, N, auto, 0.2), w1, w2, auto)
+                if level == "counts":
+                    out.append(nc.counts)
+                elif level == "normalised":
+                    out.append(nc)
+                else:
+                    out.append(CorrFunc(nc, G.make_nc(binning, G.rand_counts(rng, B, N, False, 0.2), w1, w2, False)))
+            return out
+        items = fresh_list()
+        before = [snapshot(x) for x in items]
+        rep = {"kind": "purity", "level": level, "auto": auto, "N": N, "B": B}
+        ck.count(f"purity:{level}")
+        ck.case(None, ("purity", pi))
+        try:
+            t1 = items[0] + items[1] + items[2]
+            # the running-total idiom; `0 + x` (and hence sum()) is offered by the count containers through __radd__,
+            # CorrFunc offers `+` only: its totals start from the first item
+            zero_ok = level != "corrfunc"
+            total = 0 if zero_ok else items[0]
+            for x in (items if zero_ok else items[1:]):
+                total += x
+            t2 = sum(items) if zero_ok else sum(items[1:], items[0])
+            total_again = 0 if zero_ok else items[0]
+            for x in (items if zero_ok else items[1:]):
+                total_again += x
+            _ = items[1] * 3.0
+        except Exception as e:  # noqa: BLE001
+            ck.add_violation(f"adding compatible {level} containers raised {type(e).__name__}: {e}", rep)
+            continue
+        after = [snapshot(x) for x in items]
+        if not all(same(a, b) for a, b in zip(before, after)):
+            k = next(i for i, (a, b) in enumerate(zip(before, after)) if not same(a, b))
+            ck.add_violation(f"operand {k} of a sum of {level} containers was changed by the operators "
+                             "(+, running total with +=, sum(), * scalar)", rep)
+            continue
+        if not (same(snapshot(t1), snapshot(total)) and same(snapshot(t1), snapshot(t2)) and same(snapshot(t1), snapshot(total_again))):
+            ck.add_violation(f"a + b + c, a running total, sum() and a second running total over the same {level} "
+                             "containers do not agree", rep)
+
     for ci in range(n_cases):
         OPS = ["mul", "add", "add", "add", "bins", "bins", "bins", "patches", "patches", "iter", "eq", "add"]
         op = OPS[ci % len(OPS)]          # stratified: every operation / variant is exercised in every run
